@@ -88,3 +88,21 @@ PROPS["C08"] = dict(
         "them; apply_patch is driven directly"],
     assumptions=["set_priority counts as a new insertion for tie-breaking (the weaker reading of 'earliest added wins ties')"],
 )
+
+import drivers
+PROPS["C09"] = dict(
+    rule=("one archive of 40 files (sizes 0..70000, 8 names absent) read through extract_with_config for request lists of "
+          "length {0,1,9,10,11,999,1000,1001,2500} (+ {2,29..31,5001} thorough) with adjacent and distant duplicates, missing "
+          "names first/middle/last/scattered, case- and slash-varied spellings, x threads {1,3,8} (+{2,32}) x batch sizes "
+          "{1,2,7,10,64,N} x skip-errors on/off, under CPU contention; ParallelArchive::{extract_files_parallel, "
+          "extract_files_batched, process_files_parallel, extract_matching_parallel} and "
+          "parallel::extract_from_multiple_archives; every slot compared with a sequential read_file. non-trivial = a call "
+          "with >= 2 requests whose every slot matched; distinct by FNV hash of call + request indices"),
+    trusted_base=COMMON_TB + [
+        "A1: tasks are pure functions of (archive bytes, name): private handle per task/batch, no shared mutable state "
+        "in wow-mpq/src (lexical source scan every run)", "A2: rayon's indexed parallel collect preserves index order",
+        "real schedules are sampled (threads x contention), not enumerated: the theorems quantify over all schedules of "
+        "the model, the tie samples the implementation's"],
+    assumptions=["A1 no shared mutable state", "A2 rayon indexed collect order", "batch size > 0 (chunks(0) panics; see C05)"],
+    drivers=[drivers.scan_shared_state],
+)
